@@ -20,7 +20,7 @@ P = {
     text='Lean 4 theorems over TCV.Names.findFull (char-level transcription of _find_task_full_name): a full name always resolves '
          'to itself, a unique match resolves, any result is a match that is the query itself or a `:`-boundary suffix of every '
          'other match, exact characterisation of both errors, and order independence under any permutation — for all name lists '
-         'and all query strings. Correspondence: generated colliding name sets x all shorter forms x 3 orders through '
+         'and all query strings; class-derived task names (Names.classTaskName): snake_injective, classTaskName_injective.  Correspondence: generated colliding name sets x all shorter forms x 3 orders through '
          '_find_task_full_name, Chain[...]/in/get_task and InputTasks, diffed with the model; structured reference resolver as oracle.',
     note='the structured reading of "less nested" (namespace/group lists are suffixes) is checked by the oracle on generated '
          'names; the theorem states the textual boundary form; Python str.split/endswith semantics are modelled',
@@ -28,8 +28,8 @@ P = {
     ref='§4 C10'),
  'C12': dict(
     text='The Lean model TCV.Key is the frozen key/path scheme of release 1.4.0 (registry text, inputs text, sha256[:32], path '
-         'components); theorems pin its shape (key_def, key_format, path_shape, side_files). Decided by correspondence: a golden '
-         'corpus of ~1000 (config, task)->key/path lines captured from the pinned commit before any repair must be reproduced by '
+         'components); theorems pin its shape (key_def, key_format, path_shape, side_files, side_files_named_after_key; classTaskName_injective for class-derived task names). '
+         'Decided by correspondence: a golden corpus of ~1600 (config, task)->key/path lines (474 specs incl. dotted config names in name mode) captured from the pinned commit before any repair must be reproduced by '
          'the model (from captured parameter descriptions) and by the implementation (rebuilding the spec on the current tree), '
          'plus generated configurations compared literally and files checked on disk.',
     note='statements are near-definitional; assurance rests on the golden corpus + correspondence; sha256 validated per run; '
@@ -66,8 +66,9 @@ P = {
          'every operation history of any length, if equal location implies equal computation and the initial store is good (e.g. '
          'empty), every value ever returned equals the semantic value of the requested computation (computed, in memory or loaded), '
          'and the invariant survives failures; the necessity of the location hypothesis is proved by a counterexample; the hypothesis itself '
-         'is discharged by same_key_same_computation (via C03.merkle): in chains satisfying the decidable predicate WFChain — evaluated by '
-         'the driver on every chain the real code builds in a run — equal keys imply the same computation at every depth, hence equal '
+         'is discharged by same_key_same_computation (via C03.merkle): in chains satisfying WFChain — PROVED of every chain the builder model '
+         'returns (built_chain_wf: inputs created and keyed before their dependants, key = key function of declared parameters and input keys; '
+         'value-level side conditions TaskOK decidable) and additionally evaluated by the driver on every chain the real code builds in a run — equal keys imply the same computation at every depth, hence equal '
          'semantic values for every semantics that is a function of persisted parameters and input values. '
          'Correspondence: random histories (requests, failures, forcing, simulated and real interpreter restarts, contexts, double '
          'mounting) on the real code vs the model per operation, plus a reference provenance term computed from the config tree.',
@@ -104,31 +105,41 @@ P = {
          'contributes exactly its declared non-abstract non-excluded classes; an input is looked up under the declaring task\'s namespace with '
          'the `::`-boundary test (ns_prefix_boundary) and whatever it resolves to is a task of the chain matching with namespaces compared '
          'exactly (via the C10 theorems); a missing required input is an error that nothing later undoes, a missing optional input becomes '
-         'its default; closure queries are the inductive reachability proved for C07. Correspondence: generated pipelines x mountings x '
+         'its default; closure queries are the inductive reachability proved for C07. WHOLE-CHAIN theorems for every chain Build.build returns, every '
+         'fuel and registry (C08Chain.lean): chain_nodes_exact (tasks = the declared non-abstract non-excluded classes, each once), '
+         'chain_inputs_declared / chain_final_inputs / chain_own_objects_exact (edges = in-namespace resolutions of declared inputs), '
+         'chain_dependency_order (a rank strictly increasing along every edge), cyclic_declaration_fails (a dependency cycle contradicts '
+         'success, for every recursion limit). Name mode (BuildNM.lean): isDAG_iff_rank — the explicit acyclicity test accepts exactly the graphs '
+         'with a topological rank — and nm_chain_acyclic. Correspondence: generated pipelines x mountings x '
          'contexts incl. a malformed stream (cycles, dangling, duplicates) and a conflict stream, full task description or error kind, real '
-         'code vs model vs executable reference; closure queries for all pairs; cycles also in name mode.',
-    note='acyclicity of a successfully built chain and node-set exactness for whole config trees are decided by correspondence + oracle (the model '
-         'recurses with fuel; the theorems are the per-step laws); patterns restricted to literal / literal.*; networkx replaced by own reachability',
+         'code vs model vs executable reference; closure queries for all pairs; every second spec also in name mode against BuildNM.build.',
+    note='final edges of chains in which an object is shared from another mount or chain are characterised (chain_final_inputs) but acyclicity is shown '
+         'for first-pass edges and own-object chains; the model recurses with fuel (Python: RecursionError); patterns restricted to literal / literal.*; networkx replaced by own reachability',
     technique='Lean 4 proof (per-step laws of the builder, reuse of C10/C07 theorems) + differential correspondence with an executable reference',
     ref='§4 C08'),
  'C09': dict(
     text='Lean 4 over TCV.Config/TCV.Build, for all data/contexts/namespaces/declarations: context_precedence (entry for exactly the config\'s '
          'namespace over global context entry over file entry; entries of any other namespace invisible), merge_later_wins, param_value '
          '(config value under name_in_config, else default, else missing_param; wrong type is bad_type), params_ok_iff, bad_param_is_error, '
-         'register_conflict (a name declared by two configs is the error `conflict` wherever the first declaration sits). Correspondence: '
+         'register_conflict (a name declared by two configs is the error `conflict` wherever the first declaration sits); WHOLE-CHAIN (C09Chain.lean, every '
+         'chain the builder returns): conflict_never_resolved_by_order (a task name is declared by exactly one config of the chain), '
+         'values_of_declaring_config_only, every_parameter_has_its_value. Correspondence: '
          'config trees x contexts (dict/file/list/nested uses, for_namespaces, repeated mounting, multi-part, YAML): every parameter of every '
-         'task and error kinds, real code vs model vs reference table; aliasing probes on the real code.',
+         'task and error kinds, real code vs model vs reference table; aliasing probes on the real code (context dicts and prepared Context objects shared by configs).',
     note='the heap-aliasing clause (no shared mutable values) has no model counterpart and is decided on the implementation only; noninterference '
          'between configs is structural in the model (a task\'s parameters are computed from its declaring config\'s data only) and exercised by correspondence',
     technique='Lean 4 proof (association-list algebra, induction over declarations) + differential correspondence',
     ref='§4 C09'),
  'C13': dict(
     text='Lean 4: the registry invariant of (Multi)Chain object sharing — after any sequence of task creations two tasks are one object iff they '
-         'have the same (task name, key) (assign_spec, shared_iff_same_loc, regOK_after); finding K6 is proved on its witness in the model '
+         'have the same (task name, key) (assign_spec, shared_iff_same_loc, regOK_after); a member chain creates the same tasks, in the same order, with the same parameter values, '
+         'first-pass inputs and keys as the standalone chain of its config, whatever registry it is built over (recreate_sim, '
+         'created_tasks_registry_independent, multichain_member_eq_standalone: simulation up to object identity, by induction on the recursion fuel); '
+         'MultiChain.force = Chain.force on every member (multichain_force_fans_out); finding K6 is proved on its witness in the model '
          '(every member config builds standalone, the MultiChain of the two fails). Correspondence: lists of 2-5 configs built as MultiChain and '
          'standalone on the real code vs the model (tasks, parameters, inputs, keys, object identity matrix across chains, incl. the mutation '
          'of shared objects by later chains); oracles: member == standalone, one object iff same location, value in memory for other chains, force fans out.',
-    note='partial (K6): "same as standalone" holds only when no computation is shared across member chains under different namespaces (the class '
+    note='partial (K6): the registry-independence theorem covers tasks, parameters, keys and first-pass inputs; the input tables after the second dependency pass are "same as standalone" only when no computation is shared across member chains under different namespaces (the class '
          'predicate of K6, reported as KNOWN-FINDING incl. its silent optional-input variant); values/forcing across chains rest on the C01/C07 machine theorems',
     technique='Lean 4 proof (registry invariant) + proved counterexample + differential correspondence',
     ref='§4 C13'),
